@@ -2,7 +2,7 @@
 import ast
 
 from ..core.db import AnalysisError, norm_stmt, walk_no_nested
-from ..core.interp import Interp, Const, Tup, Unknown, Slice, Obj
+from ..core.interp import Interp, Const, Tup, Unknown, Slice, Obj, Value
 from ..domains.index import IndexDomain, Shaped, Ranged, parity_classes, ptxt
 from ..domains.normdom import install_pi, Sym
 from ..core.norm import Rat
@@ -65,6 +65,103 @@ def coord_dtype_rules(run, db):
         run.check(not bad_casts, 'C04.range', fi_.qual, 'coordinate dtype', 'signed coordinate vectors (zero at n//2, negative before it) are not cast to a dtype taken from the data',
                   '`%s` casts an origin-referenced index vector to the dtype of the data: for unsigned-integer images the negative half wraps around and the reported position is wrong'
                   % (ast.unparse(bad_casts[0]) if bad_casts else ''), fi_.loc(bad_casts[0]) if bad_casts else fi_.loc())
+
+
+def centroid_probe(run, db, rule):
+    """psf.centroid decided on a probe: for an image that is zero except for one sample at index (i, j) (i, j symbols), the centroid
+    in samples is (i, j) and in spatial units dx*(i - r//2), dx*(j - c//2), for every parity of r and c.  The image is an abstract
+    "delta" array: its total is 1, a marginal sum is a delta vector, a delta vector times an index vector picks one entry;
+    scipy's center_of_mass is summarised by its contract."""
+    from ..domains.index import Ranged
+    f = db.func('prysm.psf.centroid')
+
+    class Delta(Value):
+        """an array with one unit sample: lengths and position per remaining axis"""
+        def __init__(self, lens, pos):
+            self.lens, self.pos = list(lens), list(pos)
+
+    class Picked(Value):
+        """an array whose only non-zero sample has the value `v`"""
+        def __init__(self, v):
+            self.v = v
+    n_judged = 0
+    for par in parity_classes(['r', 'c']):
+        it, dom = mk(db, par)
+        I, J = dom.integer('i'), dom.integer('j')
+        og, om, oe, ob = dom.getattr, dom.method, dom.call_ext, dom.binop
+
+        def getattr_(v, name, node, og=og, dom=dom):
+            if isinstance(v, Delta):
+                if name == 'shape':
+                    return Tup(list(v.lens))
+                if name == 'ndim':
+                    return Const(len(v.lens))
+                if name in ('dtype', 'size'):
+                    return Unknown(name)
+                return None
+            return og(v, name, node)
+
+        def method(v, name, args, kwargs, node, om=om, dom=dom):
+            if isinstance(v, Delta) and name == 'sum':
+                ax = kwargs.get('axis', args[0] if args else None)
+                if ax is None or (isinstance(ax, Const) and ax.v is None):
+                    return Const(1)
+                axes = [a.v for a in ax.items] if isinstance(ax, Tup) and all(isinstance(a, Const) for a in ax.items) else ([ax.v] if isinstance(ax, Const) and isinstance(ax.v, int) else None)
+                if axes is None:
+                    return Unknown('sum over axes that are not followed')
+                axes = [a % len(v.lens) for a in axes]
+                keep = [k for k in range(len(v.lens)) if k not in axes]
+                if not keep:
+                    return Const(1)
+                return Delta([v.lens[k] for k in keep], [v.pos[k] for k in keep])
+            if isinstance(v, Delta) and name in ('astype', 'copy'):
+                return v
+            if isinstance(v, Picked) and name == 'sum' and not args and not kwargs:
+                return v.v
+            return om(v, name, args, kwargs, node)
+
+        def call_ext(dotted, args, kwargs, node, oe=oe, dom=dom):
+            last = dotted.rsplit('.', 1)[-1]
+            a0 = args[0] if args else None
+            if last == 'center_of_mass' and isinstance(a0, Delta):
+                return Tup(list(a0.pos))
+            if last == 'sum' and dotted.startswith('numpy.') and isinstance(a0, (Delta, Picked)):
+                return method(a0, 'sum', args[1:], kwargs, node)
+            if dotted == 'builtins.float' and a0 is not None and dom.rat(a0) is not None:
+                return a0
+            return oe(dotted, args, kwargs, node)
+
+        def binop(op, a, b, node, ob=ob, dom=dom):
+            if isinstance(op, ast.Mult):
+                for d_, r_ in ((a, b), (b, a)):
+                    if isinstance(d_, Delta) and len(d_.lens) == 1 and isinstance(r_, Ranged):
+                        if not eq(dom, d_.lens[0], r_.n):
+                            return Unknown('index vector of another length')
+                        return Picked(dom.interp.binop(ast.Add(), r_.start, dom.interp.binop(ast.Mult(), d_.pos[0], r_.step, node), node))
+            if isinstance(a, Picked) and dom.rat(b) is not None and isinstance(op, (ast.Mult, ast.Div)):
+                return Picked(dom.interp.binop(op, a.v, b, node))
+            return ob(op, a, b, node)
+        dom.getattr, dom.method, dom.call_ext, dom.binop = getattr_, method, call_ext, binop
+        mkdata = lambda: Delta([dom.length('r'), dom.length('c')], [I, J])
+        for unit in ('spatial', 'pixels'):
+            res = [p for p in it.run(f, kwargs=lambda: {'data': mkdata(), 'dx': dom.sym('dx'), 'unit': Const(unit)}) if p.outcome == 'return']
+            if len(res) != 1:
+                raise AnalysisError('centroid probe: expected one path for unit=%s, got %d' % (unit, len(res)))
+            v = res[0].value
+            items = v.items if isinstance(v, Tup) else None
+            if items is None or len(items) != 2 or any(dom.rat(x) is None for x in items):
+                raise AnalysisError('centroid probe: the result is not followed (%r)' % (v,))
+            if unit == 'spatial':
+                want = [dom.rat(dom.sym('dx')) * (dom.rat(p_) - dom.rat(half(dom, dom.length(n_)))) for p_, n_ in ((I, 'r'), (J, 'c'))]
+            else:
+                want = [dom.rat(I), dom.rat(J)]
+            ok = all(dom.rat(x) == w for x, w in zip(items, want))
+            n_judged += 1
+            run.check(ok, rule, f.qual, 'centroid of a single sample, unit=%s' % unit,
+                      'one sample at (i, j) has its centroid at %s [%s]' % ('dx*(i - r//2), dx*(j - c//2)' if unit == 'spatial' else '(i, j)', ptxt(par)),
+                      'for an image with one sample at (i, j) the centroid (unit=%s) comes out as (%s), expected (%s), for %s: the origin of the spatial centroid is not the sample n//2'
+                      % (unit, ', '.join(sh(dom, x) for x in items), ', '.join(w.key() for w in want), ptxt(par)), f.loc())
+    return n_judged
 
 
 def centre_sites(run, db, rule='C04.centre', only=None):
@@ -206,8 +303,13 @@ def centre_sites(run, db, rule='C04.centre', only=None):
         if n_inst == 0:
             raise AnalysisError('centre site %s: no centre index bound on any analysed path' % qual)
 
-    centre_site('prysm.psf.centroid', lambda d: {'data': d.array('data', 'r', 'c'), 'dx': d.sym('dx'), 'unit': Const('spatial')},
-                ['r', 'c'], ['r', 'c'], what='centroid reference index')
+    if want_site('prysm.psf.centroid'):
+        try:
+            centroid_probe(run, db, rule)
+        except AnalysisError:
+            # the probe could not follow the routine: fall back to judging the halved shape it subtracts
+            centre_site('prysm.psf.centroid', lambda d: {'data': d.array('data', 'r', 'c'), 'dx': d.sym('dx'), 'unit': Const('spatial')},
+                        ['r', 'c'], ['r', 'c'], what='centroid reference index')
     for nm in ('mtf_from_psf', 'ptf_from_psf', 'otf_from_psf'):
         centre_site('prysm.otf.' + nm, lambda d: {'psf': d.array('psf', 'r', 'c'), 'dx': d.sym('dx')}, ['r', 'c'], ['r', 'c'], what='DC index')
     centre_site('prysm.interferogram.bandlimited_rms',
@@ -554,23 +656,45 @@ def check(run, db, tier):
             if len(res) != 1 or not (isinstance(res[0].value, Tup) and len(res[0].value.items) == 2):
                 raise AnalysisError('Slices.%s: expected one (coords, values) return' % which)
             coords, vals = res[0].value.items
-            ok = isinstance(vals, Shaped) and vals.origin is not None and vals.origin[0] == 'slice' and vals.origin[1].label == 'src'
-            detail = repr(vals)
+
+            def flat(v):
+                """(label of the array a chain of subscripts starts from, [per axis of that array: ('at', index) | ('from', start, stop or None)])"""
+                chain = []
+                while isinstance(v, Shaped) and v.origin is not None and v.origin[0] == 'slice':
+                    chain.append(v.origin[2])
+                    v = v.origin[1]
+                if not isinstance(v, Shaped):
+                    return None
+                spec = [('from', Const(0), None) for _ in v.shape.items]
+                for idx in reversed(chain):
+                    items = list(idx.items) if isinstance(idx, Tup) else [idx]
+                    live = [k for k, sp in enumerate(spec) if sp[0] == 'from']
+                    if len(items) > len(live):
+                        return None
+                    for k, it_ in zip(live, items):
+                        _, lo, hi = spec[k]
+                        if isinstance(it_, Slice):
+                            if not (isinstance(it_.step, Const) and it_.step.v in (None, 1)):
+                                return None
+                            nlo = lo if (isinstance(it_.lo, Const) and it_.lo.v is None) else dom.interp.binop(ast.Add(), lo, it_.lo, None)
+                            nhi = hi if (isinstance(it_.hi, Const) and it_.hi.v is None) else dom.interp.binop(ast.Add(), lo, it_.hi, None)
+                            spec[k] = ('from', nlo, nhi)
+                        elif dom.rat(it_) is not None:
+                            spec[k] = ('at', dom.interp.binop(ast.Add(), lo, it_, None))
+                        else:
+                            return None
+                return v.label, spec
+            fv, fc = flat(vals), flat(coords)
+            ok = fv is not None and fv[0] == 'src' and len(fv[1]) == 2 and fc is not None and fc[0] == which and len(fc[1]) == 1
+            detail = 'values %r, coordinates %r' % (vals, coords)
             if ok:
-                idx = vals.origin[2]
-                items = idx.items if isinstance(idx, Tup) else [idx]
-                fixed, along = (items[0], items[1]) if which == 'x' else (items[1], items[0])
+                fixed, along = (fv[1][0], fv[1][1]) if which == 'x' else (fv[1][1], fv[1][0])
                 wantfixed = dom.integer('cy' if which == 'x' else 'cx')
-                wantstart = dom.integer('cx' if which == 'x' else 'cy')
-                ok = eq(dom, fixed, wantfixed) and isinstance(along, Slice)
-                if ok and not two:
-                    ok = eq(dom, along.lo, wantstart) and isinstance(along.hi, Const) and along.hi.v is None
-                    c_ok = isinstance(coords, Shaped) and coords.origin is not None and coords.origin[0] == 'slice' and coords.origin[1].label == which \
-                        and isinstance(coords.origin[2], Slice) and eq(dom, coords.origin[2].lo, wantstart)
-                    ok = ok and c_ok
-                elif ok:
-                    ok = isinstance(along.lo, Const) and along.lo.v is None and isinstance(coords, Shaped) and coords.label == which
-                detail = 'index %r, coordinates %r' % (idx, coords)
+                wantstart = dom.integer('cx' if which == 'x' else 'cy') if not two else Const(0)
+                ok = fixed[0] == 'at' and eq(dom, fixed[1], wantfixed) and along[0] == 'from' and eq(dom, along[1], wantstart) and along[2] is None \
+                    and fc[1][0][0] == 'from' and eq(dom, fc[1][0][1], wantstart) and fc[1][0][2] is None
+                detail = 'values taken at %s, coordinates at %s' % ([(sp[0],) + tuple(sh(dom, z) if z is not None else 'end' for z in sp[1:]) for sp in fv[1]],
+                                                                     [(sp[0],) + tuple(sh(dom, z) if z is not None else 'end' for z in sp[1:]) for sp in fc[1]])
             run.check(ok, 'C04.slices', fi.qual, '%s slice twosided=%s' % (which, two),
                       'the %s slice is taken through the origin sample (%s centre fixed%s)' % (which, 'row' if which == 'x' else 'column', '' if two else ', starting at the other centre'),
                       'Slices.%s (twosided=%s) does not pass through the origin sample: %s' % (which, two, detail), fi.loc())
